@@ -18,10 +18,13 @@ MANIFEST = {
     "C04_replay_exact -- _rewind returns exactly the cache and empties it, resume() pushes it as a plan of its own, "
     "_start_suspender builds rewindable(False); pre; wait_for; _resume_from_suspender; post; rewindable(was); cache, and "
     "(by induction over the list) such a plan hands out exactly those messages in order whatever it is sent and then "
-    "returns; C04_cache_invariant -- along ANY run of the engine (every plan, script, fuel) the cache equals the ghost "
-    "function `replayable` of the log of processed messages segmented by reset events. Python: the documented rule is "
-    "recomputed from the executed message identities of the REAL RunEngine and every replay window after a resume or a "
-    "suspension release is compared with it (same Msg objects, same order, then a new message).",
+    "returns; C04_replay_step/_end -- one loop round with a rewind plan on top processes exactly its next message, an "
+    "exhausted one is popped and the interrupted plan goes on; C04_cache_invariant -- along ANY run of the engine (every plan, "
+    "device spec, script, fuel) the cache, when there is one, is exactly the cacheable messages among the LAST processed "
+    "messages (a filtered suffix of the msg log: same identities, same order, none skipped) and is empty while the plan is "
+    "non-rewindable. Python: the documented rule is recomputed from the executed message identities of the REAL RunEngine "
+    "and every replay window after a resume or a suspension release is compared with it (same Msg objects, same order, "
+    "then a new message); nested / repeated interruptions are followed with an expectation stack.",
     "note": "Trusted: Lean kernel; engine_extract.py (tables _UNCACHEABLE_COMMANDS, handlers calling _reset_checkpoint_state*, "
     "rewindable setter); the hand-written _run machine, tied to the real RunEngine by the differential run on the same "
     "scenarios (deterministic loop). subscribe/unsubscribe messages are in the extracted tables but their handlers are "
